@@ -290,8 +290,17 @@ func c02(r *core.Report) {
 			ts.describe(r)
 			ts.checkSendCounter("C02-SEND-COUNTER")
 			ts.checkAuthPath("C02-AUTHENTIC")
+			ruleVerifyInside(r, "C02-AUTHENTIC")
 			ts.checkCounterNoReset("C02-COUNTER-NO-RESET")
 		}
+	}
+
+	// ---- C02-PINNED-KEY (shared with C05): "the authenticated peer of that same channel ... even across
+	// session rotation": a rotated session is admitted only with the pinned key, and the pin has one writer
+	r.Rule("C02-PINNED-KEY", "an established channel admits a new session only with its pinned key; the pin is written by onReadySession only", 2)
+	if cs := resolveChan(r); cs != nil && len(r.Failures) == 0 {
+		ruleCheckKeyShape(r, cs, "C02-PINNED-KEY")
+		ruleKeyWriters(r, cs, "C02-PINNED-KEY")
 	}
 
 	// ---- C02-NO-PLAINTEXT
